@@ -1,5 +1,414 @@
-//! C26 harness (stub: not implemented yet).
+//! C26 — terminal truncation. Runs the REAL `<str as Cell>::truncate` and `Line::truncate` of
+//! radicle-term on Unicode strings, under a watchdog.
+//!
+//! A string travels as the list of its extended grapheme clusters *as measured by the real crates*:
+//! token `-` (empty) or clusters joined by `,`; a cluster is `<width>` followed by one `:<w|n><hex>`
+//! per scalar value (`w` = `char::is_whitespace`). `run_case` rebuilds the string from the bytes and
+//! re-measures it with unicode-segmentation / unicode-display-width / `Cell::width`; a token that does
+//! not match what the real crates say is a `bad-case`.
+//!
+//!   str <s> <width> <delim>        -> ok:<hex of result> | panic
+//!   line <items> <width> <delim>   -> ok:<hex>/<hex>… (`~` = no label left) | panic | timeout
+//!                                     (<items> = `~` or string tokens joined by `/`)
+//!
+//! Oracle: no panic, termination (watchdog), real `Cell::width` of the result <= width. The additivity
+//! hypothesis of the theorems (width of result = sum of the widths of the clusters it was assembled
+//! from) is checked on every case and counted (`additive` / `width-not-additive`).
+
+use std::sync::atomic::{AtomicU32, Ordering};
+use std::time::Duration;
+
+use radicle_term::cell::Cell;
+use radicle_term::Line;
+use unicode_segmentation::UnicodeSegmentation as _;
+use verif_common::*;
+
+static TIMEOUTS: AtomicU32 = AtomicU32::new(0);
+
+/// One measured cluster.
+#[derive(Clone)]
+struct G {
+    bytes: Vec<u8>,
+    width: usize,
+}
+
+/// Token form of a string, from the real crates. `None` if a cluster does not re-measure as itself
+/// (`Cell::width(g) != unicode_display_width::width(g)`): the model has one width per cluster.
+fn tokenize(s: &str) -> Option<String> {
+    if s.is_empty() {
+        return Some("-".into());
+    }
+    let mut out = vec![];
+    for g in s.graphemes(true) {
+        let w = unicode_display_width::width(g) as usize;
+        if Cell::width(g) != w {
+            return None;
+        }
+        let mut t = w.to_string();
+        for c in g.chars() {
+            let mut buf = [0u8; 4];
+            t.push(':');
+            t.push(if c.is_whitespace() { 'w' } else { 'n' });
+            t.push_str(&hex(c.encode_utf8(&mut buf).as_bytes()));
+        }
+        out.push(t);
+    }
+    Some(out.join(","))
+}
+
+/// Parse a string token, rebuild the string, and check the token against the real measurements.
+fn parse_str(tok: &str) -> Option<(String, Vec<G>)> {
+    if tok == "-" {
+        return Some((String::new(), vec![]));
+    }
+    let mut bytes = vec![];
+    for g in tok.split(',') {
+        let mut parts = g.split(':');
+        let _w: usize = parts.next()?.parse().ok()?;
+        let mut n = 0;
+        for c in parts {
+            let b = unhex(c.get(1..)?)?;
+            if b.is_empty() {
+                return None;
+            }
+            bytes.extend(b);
+            n += 1;
+        }
+        if n == 0 {
+            return None;
+        }
+    }
+    let s = String::from_utf8(bytes).ok()?;
+    if tokenize(&s)? != tok {
+        return None;
+    }
+    let gs = s
+        .graphemes(true)
+        .map(|g| G { bytes: g.as_bytes().to_vec(), width: unicode_display_width::width(g) as usize })
+        .collect();
+    Some((s, gs))
+}
+
+/// Is the real width of `out` the sum of the widths of the clusters it was assembled from
+/// (a prefix of `s`'s clusters, possibly followed by `delim`)? `None`: `out` has no such shape.
+fn additive(out: &str, s: &str, gs: &[G], delim: &str, dw: usize) -> Option<bool> {
+    let real = Cell::width(out);
+    if out == s {
+        return Some(real == gs.iter().map(|g| g.width).sum::<usize>());
+    }
+    let mut shaped = false;
+    let mut prefix: Vec<u8> = vec![];
+    let mut sum = 0;
+    for j in 0..=gs.len() {
+        if out.as_bytes() == prefix.as_slice() {
+            shaped = true;
+            if real == sum {
+                return Some(true);
+            }
+        }
+        if out.len() == prefix.len() + delim.len() && out.as_bytes().starts_with(&prefix) && out.ends_with(delim) {
+            shaped = true;
+            if real == sum + dw {
+                return Some(true);
+            }
+        }
+        if j < gs.len() {
+            prefix.extend(&gs[j].bytes);
+            sum += gs[j].width;
+        }
+    }
+    if shaped { Some(false) } else { None }
+}
+
+fn run_case(input: &str) -> Outcome {
+    let toks: Vec<&str> = input.split(' ').collect();
+    let bad = || Outcome::new("bad-case").trivial();
+    match toks.as_slice() {
+        ["str", s, w, d] => {
+            let (Some((s, gs)), Ok(width), Some((delim, dgs))) = (parse_str(s), w.parse::<usize>(), parse_str(d)) else {
+                return bad();
+            };
+            let total: usize = gs.iter().map(|g| g.width).sum();
+            let dw: usize = dgs.iter().map(|g| g.width).sum();
+            if Cell::width(s.as_str()) != total || Cell::width(delim.as_str()) != dw {
+                return bad();
+            }
+            match catch(|| s.as_str().truncate(width, &delim)) {
+                Err(msg) => Outcome::new("panic")
+                    .tag("str-panic")
+                    .violation("truncate-panic", format!("{s:?}.truncate({width}, {delim:?}) panicked: {msg}")),
+                Ok(out) => {
+                    let mut o = Outcome::new(format!("ok:{}", hex(out.as_bytes())));
+                    let real = Cell::width(out.as_str());
+                    if real > width {
+                        o = o.violation(
+                            "truncate-over-width",
+                            format!("{s:?}.truncate({width}, {delim:?}) = {out:?} has width {real}"),
+                        );
+                    }
+                    o = o.tag(if width >= total {
+                        "str-unchanged"
+                    } else if width < dw {
+                        "str-delim-does-not-fit"
+                    } else if out.len() < s.len() && !delim.is_empty() && out.ends_with(delim.as_str()) {
+                        "str-cut-with-delim"
+                    } else {
+                        "str-cut-no-delim"
+                    });
+                    if delim.is_empty() {
+                        o = o.tag("empty-delim");
+                    }
+                    if width == total || width + 1 == total || width == dw || width + 1 == dw {
+                        o = o.tag("str-width-at-boundary");
+                    }
+                    o = match additive(&out, &s, &gs, &delim, dw) {
+                        Some(true) => o.tag("additive"),
+                        Some(false) => o.tag("width-not-additive"),
+                        None => o.tag("shape-unexpected"),
+                    };
+                    o.nontrivial = width < total;
+                    o
+                }
+            }
+        }
+        ["line", l, w, d] => {
+            let (Ok(width), Some((delim, _))) = (w.parse::<usize>(), parse_str(d)) else { return bad() };
+            let mut items = vec![];
+            if *l != "~" {
+                for t in l.split('/') {
+                    let Some((s, _)) = parse_str(t) else { return bad() };
+                    // `Label::new` strips these; the model does not know about that.
+                    if s.contains('\n') || s.contains('\r') {
+                        return bad();
+                    }
+                    items.push(s);
+                }
+            }
+            if TIMEOUTS.load(Ordering::SeqCst) >= 3 {
+                // Three runaway threads are spinning already: do not start more.
+                return Outcome::new("not-run").tag("line-not-run").trivial();
+            }
+            let total: usize = items.iter().map(|i| Cell::width(i.as_str())).sum();
+            let (tx, rx) = std::sync::mpsc::channel();
+            let (items2, delim2) = (items.clone(), delim.clone());
+            std::thread::spawn(move || {
+                let r = catch(|| {
+                    let mut line = Line::default();
+                    for i in &items2 {
+                        line = line.item(i.as_str());
+                    }
+                    Line::truncate(&mut line, width, &delim2);
+                    let w = Line::width(&line);
+                    let out: Vec<String> = line.into_iter().map(|l| l.content().to_owned()).collect();
+                    (w, out)
+                });
+                tx.send(r).ok();
+            });
+            match rx.recv_timeout(Duration::from_secs(5)) {
+                Err(_) => {
+                    TIMEOUTS.fetch_add(1, Ordering::SeqCst);
+                    Outcome::new("timeout").tag("line-timeout").violation(
+                        "line-truncate-nontermination",
+                        format!("Line{items:?}.truncate({width}, {delim:?}) did not finish within 5 s"),
+                    )
+                }
+                Ok(Err(msg)) => Outcome::new("panic").tag("line-panic").violation(
+                    "line-truncate-panic",
+                    format!("Line{items:?}.truncate({width}, {delim:?}) panicked: {msg}"),
+                ),
+                Ok(Ok((w, out))) => {
+                    let shown = if out.is_empty() {
+                        "~".to_string()
+                    } else {
+                        out.iter().map(|i| hex(i.as_bytes())).collect::<Vec<_>>().join("/")
+                    };
+                    let mut o = Outcome::new(format!("ok:{shown}"));
+                    if w > width {
+                        o = o.violation(
+                            "line-over-width",
+                            format!("Line{items:?}.truncate({width}, {delim:?}) = {out:?} has width {w}"),
+                        );
+                    }
+                    o = o.tag(if total <= width {
+                        "line-unchanged"
+                    } else if out.len() < items.len() {
+                        "line-popped-and-cut"
+                    } else {
+                        "line-cut-last"
+                    });
+                    o.nontrivial = total > width;
+                    o
+                }
+            }
+        }
+        _ => bad(),
+    }
+}
+
+// ---------------------------------------------------------------------------------------------
+// generators
+
+const ALPHABET: &[&str] = &[
+    "a", "b", "Z", " ", " ", "\t", "\u{3000}", "\u{a0}", "\u{2003}", "\u{85}", "\u{1680}", "界", "語", "🍍", "🪵",
+    "\u{301}", "\u{308}", "\u{200b}", "\u{200d}", "\u{fe0f}", "é", "e\u{301}", "👨\u{200d}👩\u{200d}👧", "❤\u{fe0f}", "🇫", "🇷",
+    "🇫🇷", "ᄒ", "ᅡ", "ᆫ", "한", "\u{0}", "\u{7f}", "\u{ad}", "ﷺ", "ｱ", "…", ".", "-",
+];
+
+const DELIMS: &[&str] = &["", "", "…", "…", "..", "界", " ", "\u{3000}", "\u{301}", "a\u{301}", "\u{200b}", "🍍", "->", "\u{308}…"];
+
+fn random_char(rng: &mut Rng) -> char {
+    loop {
+        let c = match rng.below(6) {
+            0 => rng.below(0x80),
+            1 => rng.range(0x80, 0x7ff),
+            2 => rng.range(0x300, 0x36f),     // combining marks
+            3 => rng.range(0x2000, 0x206f),   // general punctuation: spaces, zero-width, bidi
+            4 => rng.range(0x3000, 0x9fff),   // CJK
+            _ => rng.range(0x1f000, 0x1faff), // pictographs
+        };
+        if let Some(c) = char::from_u32(c as u32) {
+            return c;
+        }
+    }
+}
+
+fn random_string(rng: &mut Rng, max: u64, for_line: bool) -> String {
+    let n = rng.below(max + 1);
+    let mut s = String::new();
+    let ws_tail = rng.chance(1, 4);
+    for i in 0..n {
+        if ws_tail && i + 2 >= n {
+            let t: &str = *rng.pick(&[" ", "\u{3000}", "\t", "\u{a0}", "\u{2003}"]);
+            s.push_str(t);
+        } else if rng.chance(1, 8) {
+            s.push(random_char(rng));
+        } else {
+            let t: &str = *rng.pick(ALPHABET);
+            s.push_str(t);
+        }
+    }
+    if for_line {
+        s.retain(|c| c != '\n' && c != '\r');
+    } else if rng.chance(1, 30) {
+        let t: &str = *rng.pick(&["\n", "\r\n", "\r"]);
+        s.push_str(t);
+    }
+    s
+}
+
+fn pick_width(rng: &mut Rng, total: usize, dw: usize) -> usize {
+    match rng.below(10) {
+        0 => 0,
+        1 => total,
+        2 => total.saturating_sub(1),
+        3 => dw,
+        4 => dw.saturating_sub(1),
+        5 => dw + 1,
+        6 => total + 1,
+        _ => rng.below(total as u64 + 2) as usize,
+    }
+}
+
+fn gen_str(rng: &mut Rng) -> Option<String> {
+    let s = random_string(rng, 10, false);
+    let delim = rng.pick(DELIMS).to_string();
+    let w = pick_width(rng, Cell::width(s.as_str()), Cell::width(delim.as_str()));
+    Some(format!("str {} {} {}", tokenize(&s)?, w, tokenize(&delim)?))
+}
+
+fn gen_line(rng: &mut Rng) -> Option<String> {
+    let n = rng.below(5);
+    let items: Vec<String> = (0..n).map(|_| random_string(rng, 5, true)).collect();
+    let delim = rng.pick(DELIMS).to_string();
+    let total: usize = items.iter().map(|i| Cell::width(i.as_str())).sum();
+    let w = pick_width(rng, total, Cell::width(delim.as_str()));
+    let toks: Option<Vec<String>> = items.iter().map(|i| tokenize(i)).collect();
+    let toks = toks?;
+    let l = if toks.is_empty() { "~".to_string() } else { toks.join("/") };
+    Some(format!("line {} {} {}", l, w, tokenize(&delim)?))
+}
+
+/// All strings of length `0..=max` over a small alphabet.
+fn strings(alphabet: &[char], max: usize) -> Vec<String> {
+    let mut all = vec![String::new()];
+    let mut last = vec![String::new()];
+    for _ in 0..max {
+        let mut next = Vec::new();
+        for s in &last {
+            for c in alphabet {
+                let mut s = s.clone();
+                s.push(*c);
+                next.push(s);
+            }
+        }
+        all.extend(next.iter().cloned());
+        last = next;
+    }
+    all
+}
+
 fn main() {
-    eprintln!("C26: harness not implemented");
-    std::process::exit(3);
+    let mut ctx = Ctx::from_args("C26");
+    if !ctx.run_fixed(run_case) {
+        let mut rng = ctx.rng();
+        // Exhaustive part: every string up to a length over {a, ' ', U+3000, 界, U+0301}, widths 0..6,
+        // delimiters {"", "…", "..", "界"}; two-label lines of shorter strings.
+        let alphabet = ['a', ' ', '\u{3000}', '界', '\u{301}'];
+        let delims = ["", "…", "..", "界"];
+        let mut skipped = 0u64;
+        for s in strings(&alphabet, ctx.size(3, 5) as usize) {
+            for width in 0..6 {
+                for delim in delims {
+                    match (tokenize(&s), tokenize(delim)) {
+                        (Some(st), Some(dt)) => {
+                            let input = format!("str {st} {width} {dt}");
+                            let o = run_case(&input);
+                            ctx.count("enumerated-str");
+                            ctx.record(&input, o);
+                        }
+                        _ => skipped += 1,
+                    }
+                }
+            }
+        }
+        let items = strings(&alphabet, ctx.size(2, 3) as usize);
+        for a in items.iter().step_by(ctx.size(2, 3) as usize) {
+            for b in items.iter() {
+                for width in 0..6 {
+                    for delim in ["", "…", "界"] {
+                        match (tokenize(a), tokenize(b), tokenize(delim)) {
+                            (Some(at), Some(bt), Some(dt)) => {
+                                let input = format!("line {at}/{bt} {width} {dt}");
+                                let o = run_case(&input);
+                                ctx.count("enumerated-line");
+                                ctx.record(&input, o);
+                            }
+                            _ => skipped += 1,
+                        }
+                    }
+                }
+            }
+        }
+        for _ in 0..ctx.size(12_000, 400_000) {
+            let input = if rng.chance(3, 10) { gen_line(&mut rng) } else { gen_str(&mut rng) };
+            match input {
+                Some(input) => {
+                    let o = run_case(&input);
+                    ctx.record(&input, o);
+                }
+                None => skipped += 1,
+            }
+        }
+        ctx.note("cases skipped because a cluster does not re-measure as itself", skipped);
+    }
+    ctx.finish(
+        "exhaustive: every string of length <= 3 (thorough 5) over {a, space, U+3000, 界, U+0301} x widths 0..5 x \
+         delimiters {\"\", …, .., 界}, and two-label lines of shorter strings; random: strings of 0-10 pieces from an \
+         alphabet of ASCII, single/multi-byte whitespace, wide, zero-width, combining, ZWJ sequences, regional indicators, \
+         conjoining jamo, controls and random scalar values (often with a whitespace tail), 14 delimiters incl. empty, \
+         whitespace, wide and combining-initial ones, widths at 0, total, total-1, delimiter width +-1 and uniform; lines \
+         of 0-4 such labels. Non-trivial = the text is wider than the requested width (something must be cut); distinct \
+         by input text",
+        false,
+    );
 }
